@@ -104,8 +104,8 @@ def list_install_plan(coredata: cdata.CoreData, builddata: build.Build, backend:
 
             if key == 'install_subdirs':
                 exclude_files, exclude_dirs = data.exclude or ([], [])
-                entry['exclude_dirs'] = list(exclude_dirs)
-                entry['exclude_files'] = list(exclude_files)
+                entry['exclude_dirs'] = sorted(exclude_dirs)
+                entry['exclude_files'] = sorted(exclude_files)
 
             plan[data_type] = plan.get(data_type, {})
             plan[data_type][data.path] = entry
